@@ -6,7 +6,8 @@ from typing import Any, Callable, Dict, List, Optional, Tuple, Union, Type
 
 import regex
 
-from .types import Artifact, RegexMatch
+from calendar import monthrange
+from .types import Artifact, Interval, RegexMatch, Time
 
 logger = logging.getLogger(__name__)
 
@@ -100,6 +101,9 @@ def rule(*patterns: Union[str, Predicate]) -> Callable[[Any], ProductionRule]:
     def fwrapper(f: ProductionRule) -> ProductionRule:
         def wrapper(ts: datetime, *args: Artifact) -> Optional[Artifact]:
             res = f(ts, *args)
+            if res is not None and not _is_valid_calendar(res):
+                # e.g. 31.04. or 29.02.2019: matched but failed
+                res = None
             if res is not None:
                 # upon a successful production, update the span
                 # information by expanding it to that of all args
@@ -110,6 +114,16 @@ def rule(*patterns: Union[str, Predicate]) -> Callable[[Any], ProductionRule]:
         return wrapper
 
     return fwrapper
+
+
+def _is_valid_calendar(a: Artifact) -> bool:
+    # a day of month must exist in its month (and year, if given)
+    if isinstance(a, Interval):
+        return all(t is None or _is_valid_calendar(t) for t in (a.t_from, a.t_to))
+    if isinstance(a, Time) and a.day is not None and a.month is not None:
+        year = a.year if a.year is not None else 2000  # some leap year
+        return bool(1 <= year <= 9999 and a.day <= monthrange(year, a.month)[1])
+    return True
 
 
 def regex_match(r_id: int) -> Predicate:
